@@ -1,4 +1,5 @@
 import UtpVerif.Model.VSock
+import UtpVerif.Lemmas.Rx
 import UtpVerif.Props.C05
 import UtpVerif.Props.C19
 import UtpVerif.Props.C04
@@ -13,7 +14,7 @@ flag the connection task polls is accompanied by a wake of that task, and each u
 progress.
 -/
 namespace UtpVerif.Props.C02
-open UtpVerif.Model UtpVerif.Model.VSock UtpVerif.Lemmas.Segments
+open UtpVerif.Model UtpVerif.Model.VSock UtpVerif.Lemmas.Rx UtpVerif.Lemmas.Segments
 
 /-- **Data on the wire ⇒ retransmission and inactivity timers armed** (rfc6298 5.1): every accepted
 `send_data!` leaves both armed, with the retransmission deadline no later than `now + RTO`. -/
@@ -146,6 +147,58 @@ theorem flush_registers_when_window_low (r r' : Rx) (n : Nat) (ws : List Wake)
     simp only [Option.some.injEq, Prod.mk.injEq] at h
     rw [← h.1]
     split <;> simp_all
+
+theorem flushLoop_window (fuel : Nat) (r : Rx) (win f p : Nat) (r' : Rx) (win' f' p' : Nat)
+    (hinv : OoqInv r.ooq)
+    (h : Rx.flushLoop fuel r win f p = some (r', win', f', p')) :
+    win' - r'.ooq.lenBytes = win - r.ooq.lenBytes ∧ r'.readerDropped = r.readerDropped := by
+  induction fuel generalizing r win f p with
+  | zero => simp only [Rx.flushLoop, Option.some.injEq, Prod.mk.injEq] at h; obtain ⟨rfl, rfl, _⟩ := h; exact ⟨rfl, rfl⟩
+  | succ n ih =>
+    unfold Rx.flushLoop at h
+    have hs := sendFront_inv r.ooq win (!r.readerDropped) hinv
+    split at h
+    · simp only [Option.some.injEq, Prod.mk.injEq] at h; obtain ⟨rfl, rfl, _⟩ := h; exact ⟨rfl, rfl⟩
+    · rename_i ooq' m heq
+      rw [heq] at hs
+      obtain ⟨hinv', hm, _⟩ := hs
+      obtain ⟨_, _, hle, _, _, _, hlb, hle2, _⟩ := hm m rfl
+      split at h
+      · simp at h
+      · have := ih _ _ _ _ (by simpa using hinv') h
+        simp only at this
+        constructor
+        · rw [this.1]; simp only at hlb; rw [hlb]; omega
+        · rw [this.2]
+
+/-- **An advertised zero window always comes with a registered wake-up (D21).** If, after `flush`, the room
+the connection can advertise is below the wake-up threshold - the connection sets the threshold to its
+current segment size right before flushing, and `rx_window()` advertises 0 exactly below that size - then
+`flush` has registered the connection's waker with the reader, so the read that re-opens the window re-polls
+the connection (`read_wakes_dispatcher`) and the window update goes out at once. (Nothing stored beyond the
+in-order front: with a hole in the sequence the peer's retransmission is what polls the connection.) -/
+theorem zero_window_means_waker_registered (r r' : Rx) (n : Nat) (ws : List Wake)
+    (hinv : OoqInv r.ooq) (hnd : r.readerDropped = false)
+    (hfront : r.ooq.lenBytes = r.ooq.filledFrontBytes)
+    (h : r.flush = some (r', n, ws))
+    (hz : r'.remainingRxWindow < r.maxIncomingPayload) : r'.dispatcherWaker = true := by
+  by_cases hlow : r.queueWindow - r.ooq.filledFrontBytes < r.maxIncomingPayload
+  · exact flush_registers_when_window_low r r' n ws hlow h
+  · exfalso
+    unfold Rx.flush at h
+    simp only [hlow, if_false] at h
+    split at h
+    · simp at h
+    · rename_i r2 win flushed pkts hl
+      obtain ⟨hw, hrd⟩ := flushLoop_window _ _ _ _ _ _ _ _ _ hinv hl
+      simp only [Option.some.injEq, Prod.mk.injEq] at h
+      obtain ⟨rfl, _, _⟩ := h
+      have hrem : ({ (if pkts > 0 ∧ r2.readerWaker = true then ({ r2 with readerWaker := false }, [Wake.reader]) else (r2, [])).1 with
+          lastRemainingRxWindow := win } : Rx).remainingRxWindow = win - r2.ooq.lenBytes := by
+        unfold Rx.remainingRxWindow
+        split <;> simp_all
+      rw [hrem, hw, hfront] at hz
+      omega
 
 /-- **Each useful acknowledgement makes strict progress**: an ACK whose number is at or beyond the
 first unacknowledged segment removes at least one segment from the queue (so `snd_una` advances). -/
